@@ -164,9 +164,7 @@ def pathOfCells (cells : List (Nat × Nat)) : List (Nat × Nat) :=
   cells.reverse.map fun p => (p.1 - 1, p.2 - 1)
 
 def wpNegate (wp : WP β) (cells : List (Nat × Nat)) : WP β :=
-  (List.range wp.length).map fun i =>
-    (List.range ((wp[i]?.getD []).length)).map fun j =>
-      if (i, j) ∈ cells then (wp.get i j).map (- ·) else wp.get i j
+  wp.mapIdx fun i row => row.mapIdx fun j v => if (i, j) ∈ cells then v.map (- ·) else v
 
 /-- `_reset_wp_mask` of the compact variant: every finite negative value becomes positive again -/
 def wpPositivize (wp : WP β) : WP β :=
@@ -196,6 +194,12 @@ def lcNext (choose : Option β → Option β → Option β → Nat) (minlen : Na
       if cells.length < minlen then lcNext choose minlen fuel wp'
       else (some { row := idx.1, col := idx.2, cells := cells }, wp')
 
+/-- `while k is None or ki < k` has ended -/
+def kDone (k : Option Nat) (ki : Nat) : Bool :=
+  match k with
+  | some kk => decide (kk ≤ ki)
+  | none => false
+
 /-- one call `kbest_matches(k, minlen, restart)`, fully consumed -/
 def lcCall (choose : Option β → Option β → Option β → Nat) (resetPositivizes : Bool) (k : Option Nat) (minlen : Nat) (restart : Bool) (wp : WP β) :
     List LCMatchM × WP β :=
@@ -204,7 +208,7 @@ def lcCall (choose : Option β → Option β → Option β → Nat) (resetPositi
   let rec go : Nat → Nat → WP β → List LCMatchM → List LCMatchM × WP β
     | 0, _, wp, acc => (acc.reverse, wp)
     | fuel+1, ki, wp, acc =>
-      if (match k with | some kk => decide (kk ≤ ki) | none => false) then (acc.reverse, wp)
+      if kDone k ki then (acc.reverse, wp)
       else
         match lcNext choose minlen (cells + 1) wp with
         | (none, wp') => (acc.reverse, wp')
